@@ -213,8 +213,22 @@ Definition oracle_solution (c : case) : N :=
             flag (svr_kkt K (qv (c_yr c)) cq p a rho e) 4]
   end).
 
+(* the labels / targets cover every sample *)
+Definition case_shape (c : case) : bool :=
+  match c_kind c with
+  | CSvc | NuSvc => Nat.eqb (length (c_yb c)) (length (c_X c))
+  | EpsSvr | NuSvr => Nat.eqb (length (c_yr c)) (length (c_X c))
+  | OneClass => true
+  end.
+
+(* the box the published coefficients are judged against, and the coefficients clamped to it (see [box_slack]) *)
+Definition published_box (c : case) : list Q * list Q :=
+  box_of c (match c_r c with Some r => f64_Q (PrimFloat.div 1%float r) | None => 0%Q end).
+Definition judged_alpha (c : case) : list Q :=
+  clamp_list (fst (published_box c)) (snd (published_box c)) (qv (c_alpha c)).
+
 (* sizes up to which the positive semi-definiteness certificate is evaluated (the harness sends no hint above it) *)
-Definition psd_limit : nat := 64.
+Definition psd_limit : nat := 130.
 
 Definition oracle_case (c : case) : N :=
   if c_panic c then 0%N (* reported by the harness with code 512 *) else
@@ -228,7 +242,7 @@ Definition oracle_case (c : case) : N :=
              && all_finite tdecs && all_finite (c_tws c) in
   if negb fin then 256%N else
   lorl [oracle_solution c;
-   flag (Nat.eqb (length (c_alpha c)) (length (c_X c))
+   flag (Nat.eqb (length (c_alpha c)) (length (c_X c)) && case_shape c
            && symb (length (c_X c)) (qm (c_K c))) 256;
    (* K + delta I is positive semi-definite: a-posteriori certificate (C13/PsdCert.v) K + delta I - L L^T
       diagonally dominant in exact integer arithmetic, L the harness's approximate Cholesky factor *)
